@@ -4,3 +4,4 @@ import IOptProps.C07num
 import IOptProps.C07
 import IOptProps.C08
 import IOptProps.C03
+import IOptProps.C19
